@@ -198,7 +198,7 @@ class Act(object):
             if ioinits:
                 try:
                     iois = actor._initio(ioinits)  # .inode may be changed in here
-                except TypeError as ex:  # ioinits do not match legacy _prepio signature
+                except (TypeError, AttributeError) as ex:  # ioinits do not match legacy _prepio signature or legacy base deed has no _prepio
                     msg = "ResolveError: Bad ioinits for actor. {0}".format(ex)
                     raise excepting.ResolveError(msg,
                                                  actor.name,
